@@ -81,6 +81,9 @@ CHECKS.update({
     "C20": _std("exploration", "Grammar-based Hypothesis generation + exhaustive digit-length sweep + Atheris (libFuzzer, coverage-guided) campaigns with the semantic oracle in the target; end-to-end policy runs on a virtual clock",
         "Generated Retry-After values (digit strings of any length, signs, whitespace, dates in five formats, garbage, non-strings) in 11 container shapes; every digit-string length up to 600/5000 enumerated; coverage-guided byte-level fuzzing of the header text from seeded and empty corpora with the same oracle; policies using http_retry_after_classifier + retry_after_or checked for min(rem,n) <= wait <= min(rem,n+jitter).",
         "what is a date is delegated to email.utils.parsedate_to_datetime; date hints are bracketed by real clock readings; Atheris campaigns are pinned only approximately by -seed/-runs (the saved input is the reproducible unit)", "DESIGN.md §3 C20"),
+    "C17": _std("exploration", "Harness-owned thread scheduler: full depth-first enumeration of all schedules for 2-thread programs, pre-emption-bounded enumeration for generated larger programs; linearizability oracle",
+        "The schedule is a generated/enumerated input: real threads run one at a time with every source line of circuit.py/budget.py as a pre-emption point and a cooperative lock. All schedules of every 2-thread/1-operation program from every initial state are enumerated completely; Hypothesis-generated 2-3 thread programs are explored under all schedules with <= 2/3 pre-emptions. Each outcome must equal one produced by some sequential order; no deadlock.",
+        "source-line pre-emption granularity (C-level calls atomic); constant clock during the concurrent episode; 2-3 threads, 1-3 operations each", "DESIGN.md §3 C17"),
 })
 
 PENDING_REASON = "check not built yet in this snapshot (work in progress; see DESIGN.md §3 for the planned generated-input check)"
